@@ -118,6 +118,11 @@ def gen_teams(rng, stratum, beta, n=None, maxsize=8):
             top = (i == 0)
             teams.append([((rng.uniform(14, 20) if top else rng.uniform(-20, -8)) * beta, rng.uniform(0.05, 1.0) * beta) for _ in range(sz)])
         rng.shuffle(teams)
+    elif stratum == "integers":
+        # whole-number ratings (mu 30, sigma 2): the harness hands every other one over as a Python int
+        for _ in range(n):
+            teams.append([(float(rng.randint(5, 45)) * (beta / DEFAULTS["beta"] if (beta / DEFAULTS["beta"]).is_integer() else 1.0), float(rng.randint(1, 9)))
+                          for _ in range(rng.randint(1, min(3, maxsize)))])
     elif stratum == "newcomers":
         # new players hold the default rating: equal (mu, sigma) within a team and across teams, next to a few established ones
         dflt = (25.0 * s, 25.0 / 3.0 * s)
@@ -155,7 +160,7 @@ def gen_teams(rng, stratum, beta, n=None, maxsize=8):
     return teams
 
 
-STRATA = ["typical", "typical", "wide", "corners", "mismatch", "identical", "equalsize", "floor", "lowedge", "lopsided", "bigsum", "newcomers"]
+STRATA = ["typical", "typical", "wide", "corners", "mismatch", "identical", "equalsize", "floor", "lowedge", "lopsided", "bigsum", "newcomers", "integers"]
 
 
 def gen_config(rng, default_bias=0.4):
